@@ -562,6 +562,11 @@ impl StreamsState {
         }
     }
 
+    /// Whether a STREAMS_BLOCKED frame will be written by the next `write_control_frames`
+    pub(crate) fn streams_blocked_queued(&self) -> bool {
+        self.streams_blocked.into_iter().any(|x| x)
+    }
+
     pub(crate) fn write_stream_frames(
         &mut self,
         buf: &mut Vec<u8>,
